@@ -627,23 +627,28 @@ def main():
             o = py_line(cases[i])
             io = impl[i] if "static" not in what else impl_static[i]
             if o != io: concrete.append((i, what, o, io))
+        concrete = [(cases[i], what, exp, obs) for (i, what, exp, obs) in concrete]
         g = Gen(V.seed() + 7919)
+        searched_cases = 0
         while not concrete and time.time() - t0 < budget:
             extra = g.random_cases(4000)
             ei, _ = run_harness(harness, "direct", extra, CID + "_search")
+            searched_cases += len(extra)
             for c, d in zip(extra, ei):
+                if d == "SKIP": continue                    # signal / attributes nodes: static mode only
                 o = py_line(c)
                 if o != d:
-                    cases.append(c); concrete.append((len(cases) - 1, "search: python-oracle-vs-impl(direct)", o, d)); break
+                    concrete.append((c, "search: python-oracle-vs-impl(direct)", o, d)); break
+        rep.cov["search_mode"] = {"entered": True, "seconds": round(time.time() - t0, 1), "fresh_cases": searched_cases}
         if concrete:
             # report the smallest failing cases (shortest line) per kind, at most 5
-            concrete.sort(key=lambda t: len(cases[t[0]]))
+            concrete.sort(key=lambda t: len(t[0]))
             seen = set()
-            for (i, what, exp, obs) in concrete:
-                k = " ".join(cases[i].split("|")[0].split()[:2])
+            for (case, what, exp, obs) in concrete:
+                k = " ".join(case.split("|")[0].split()[:2])
                 if k in seen or len(seen) >= 5: continue
                 seen.add(k)
-                rep.violation({"property": CID, "case": cases[i], "expected": exp, "observed": obs, "what": what,
+                rep.violation({"property": CID, "case": case, "expected": exp, "observed": obs, "what": what,
                                "broke": problems + ["%d correspondence lines differ" % len(dis)],
                                "replay_cmd": "python3 checks/C03.py --replay <this file>"})
         else:
